@@ -414,7 +414,15 @@ func createTaskWithDir(dir string, opts GlobalOptions, lockPath, eventsPath, epi
 				return fmt.Errorf("task %s is not an epic", epicID)
 			}
 		}
-		id, err := newShortID(graph.Tasks)
+		// Pruned ids stay reserved: their old events are still in the log.
+		takenIDs := make(map[string]*Task, len(graph.Tasks)+len(graph.Tombstones))
+		for existingID, task := range graph.Tasks {
+			takenIDs[existingID] = task
+		}
+		for prunedID := range graph.Tombstones {
+			takenIDs[prunedID] = nil
+		}
+		id, err := newShortID(takenIDs)
 		if err != nil {
 			return err
 		}
